@@ -374,3 +374,6 @@ PROPS["C19"].streams.append(Stream("depth-L%d" % BIGL, "depth", lambda ctx: ["c1
 PROPS["C14"].streams.append(Stream("bigitem", "bigitem", lambda ctx: [str(2 ** 32), str(2 ** 32 + 5), str(2 ** 31 + 1)], flavours=("rel",), timeout=900,
                                    tiers=("thorough", "search"), expect=lambda c: "ok %d len=%d next=ok:1" % (9 + int(c), int(c)), nontrivial=lambda c, l: True,
                                    rule="a definite byte string of 2^31+1 / 2^32 / 2^32+5 bytes followed by another item, in an anonymous mapping (needs ~4 GiB for the decoded copy; thorough tier and failing-input search only): bytes-read must be 9+n and the next decode must find the next item (closed form from C14_sequence)"))
+
+PROPS["C20"].streams.append(Stream("sizes", "sizes", treegen.sizes_cases, flavours=("rel", "dbg"), spec="sizes_spec", nontrivial=lambda c, l: l != "size=0" or "18446" in c,
+                                   rule="cbor_serialized_size on trees whose definite strings carry DECLARED lengths near 2^61..2^64 (length metadata forged as in the library's own overflow tests): sums that fit, wrap exactly and wrap by one, in arrays, maps (key+value subtotal), chunk lists and tags; the spec line is the exact unbounded total or 0"))
